@@ -10,6 +10,7 @@ jobs=$tmp/jobs
 : > $jobs
 for d in seeded/*/; do
   n=$(basename $d); id=${n%%-*}
+  [ -f $d/obsolete ] && continue
   for c in $id $(cat $d/also 2>/dev/null); do echo "seeded/$n $d/patch.diff $c" >> $jobs; done
 done
 for p in mutants/*.patch mutants/*/*.patch; do
